@@ -8,7 +8,7 @@ export PYTHONPATH=/repo/src:/verif/py PYTHONHASHSEED=0 PYTHONWARNINGS=ignore PYT
 if [ -f /verif/py/py2v.py ]; then /venv/bin/python /verif/py/py2v.py || echo "translator reported errors (checks will report them)"; fi
 /venv/bin/python /verif/py/mkcoqproject.py
 coq_makefile -f _CoqProject -o Makefile
-timeout 3000 make -k -j16 2>&1 | tail -40; test ${PIPESTATUS[0]} -eq 0 || { echo "coq build reported errors (the affected checks will report them)"; }
+timeout 3000 make -k -j16 > /verif/build/make.log 2>&1 || echo "coq build reported errors (the affected checks will report them)"; tail -30 /verif/build/make.log
 if grep -rnE '\b(Admitted|admit|Axiom|Parameter|Conjecture|Unset Guard Checking|bypass_check|Admit Obligations)\b' --include=*.v . | grep -v '(\*.*\*)' ; then
   echo "forbidden construct found"; exit 1; fi
 echo "setup ok"
